@@ -39,7 +39,7 @@ Descs == { [inp |-> i, out |-> o, errpos |-> e, special |-> ""] : i \in Sides, o
                                                                           s \in {"mixedin", "mixedout", "mixedin2", "mixedout2"}, e \in {"none", "final"} }
          \* a variadic final parameter is a parameter of the slice type
          \cup { [inp |-> PosSide(ts), out |-> o, errpos |-> "none", special |-> "variadic"] : ts \in {<<"T1">>, <<"T2", "T1">>, <<"T1", "T1">>}, o \in {NoSide, PosSide(<<"T2">>)} }
-         \cup { [inp |-> NoSide, out |-> NoSide, errpos |-> "none", special |-> s] : s \in {"nonfunc", "nil", "ptrfunc", "S1", "S2", "S3", "S4", "S5", "S6", "S7", "S8"} }
+         \cup { [inp |-> NoSide, out |-> NoSide, errpos |-> "none", special |-> s] : s \in {"nonfunc", "nil", "ptrfunc", "S1", "S2", "S3", "S4", "S5", "S6", "S7", "S8", "S9"} }
 
 Lower(n) == CASE n = "Alpha" -> "alpha" [] n = "BETA" -> "beta" [] n = "Ren" -> "ren" [] OTHER -> n
 FieldValue(f) ==
@@ -61,12 +61,13 @@ Static(s) == CASE s = "S1" -> [ok |-> TRUE, inp |-> <<V("alpha", "T1", "")>>, ou
                [] s = "S5" -> [ok |-> TRUE, inp |-> <<V("", "SP", "")>>, out |-> <<>>]                              \* func(SP) with type SP *SP: an ordinary (pointer) type
                [] s = "S6" -> [ok |-> TRUE, inp |-> <<V("", "SQ", ""), V("", "T1", "")>>, out |-> <<V("", "SR", "")>>]  \* func(SQ, T1) SR with type SQ *SR; type SR *SQ
                \* SB = struct{ Params; B T2 } with Params = struct{ Struct; A T1 }: the marker is two levels down, SB itself is an ordinary type
+               [] s = "S9" -> [ok |-> TRUE, inp |-> <<V("alpha", "T1", ""), V("beta", "T2", "")>>, out |-> <<>>]     \* {Alpha T1; Struct; Beta T2}: the marker is not the first field
                [] s = "S7" -> [ok |-> TRUE, inp |-> <<V("", "SB", "")>>, out |-> <<>>]                              \* func(SB)
                [] OTHER   -> [ok |-> TRUE, inp |-> <<V("", "T1", ""), V("", "SB", "")>>, out |-> <<V("", "SB", "")>>]  \* func(T1, SB) SB
 
 Expected(d) ==
   CASE d.special \in {"nonfunc", "nil", "ptrfunc", "mixedin", "mixedout", "mixedin2", "mixedout2"} -> [ok |-> FALSE, inp |-> <<>>, out |-> <<>>]   \* (ptrfunc: a pointer to a function is not a function)
-    [] d.special \in {"S1", "S2", "S3", "S4", "S5", "S6", "S7", "S8"} -> Static(d.special)
+    [] d.special \in {"S1", "S2", "S3", "S4", "S5", "S6", "S7", "S8", "S9"} -> Static(d.special)
     [] d.special = "variadic" ->
          LET vs == SideValues(d.inp) n == Len(vs) IN
          [ok |-> TRUE, inp |-> [i \in 1..n |-> IF i = n THEN [vs[i] EXCEPT !.type = "[]" \o @] ELSE vs[i]], out |-> SideValues(d.out)]
